@@ -1,6 +1,8 @@
 package frame
 
 import (
+	"io"
+
 	"github.com/bluenviron/gomavlib/v3/pkg/message"
 )
 
@@ -108,9 +110,17 @@ func verifHarness_C08_D(version int, shape int, n int) {
 	if version == 1 {
 		ck := verifSpecChecksumV1(seq, sys, comp, byte(s.id), payload, extra)
 		wire = verifSpecV1(seq, sys, comp, byte(s.id), payload, ck)
-	} else {
+	} else if version == 2 {
 		ck := verifSpecChecksumV2(0, compat, seq, sys, comp, s.id, payload, extra)
 		wire = verifSpecV2(0, compat, seq, sys, comp, s.id, payload, ck, false, 0, 0, nil)
+	} else {
+		// version 3: a signed v2 frame through hops that hold no key (signature block arbitrary): the checksum
+		// clause is the same
+		link := verifNondetU8()
+		ts := verifNondetU64()
+		verifAssume(ts < 1<<48)
+		ck := verifSpecChecksumV2(1, compat, seq, sys, comp, s.id, payload, extra)
+		wire = verifSpecV2(1, compat, seq, sys, comp, s.id, payload, ck, true, link, ts, verifNondetBytes(6))
 	}
 	r1 := &Reader{ByteReader: &verifChunkReader{data: wire}, DialectRW: d}
 	verifAssert(r1.Initialize() == nil, "C08/D/reader-init")
@@ -134,6 +144,8 @@ func verifHarness_C08_D(version int, shape int, n int) {
 	if err2 == nil {
 		verifAssert(verifMsgEq(m1, fr2.GetMessage()), "C08/D/next-hop-decodes-same-message")
 		verifAssert(verifHeaderEq(h1, fr2), "C08/D/header-fields-kept")
+		_, err3 := r2.Read()
+		verifAssert(err3 == io.EOF, "C08/D/nothing-but-the-frame-is-forwarded")
 	}
 	verifReach("C08/D")
 }
